@@ -122,6 +122,29 @@ class AloneSuite(PairedSuite):
             a.update({"name": "Wheatley", "instance": 9})
             yield {"a": a, "oracle": {"n": n, "peal": v, "gap": 1.0, "look_to": fstr(look_to)}}
 
+        for i in range(12 if tier == "quick" else 120):
+            # Wheatley alone ringing (and CALLING) a composition on many bells at a brisk speed, some rows carrying two or
+            # three calls: making the calls takes no time - the blow after a call is struck when the formula says
+            n = rng.choice([10, 12, 14, 16])
+            rounds_ = gens.BELL_NAMES[:n]
+            pool = ["", "", "Bob", "Bob; Plain Bob", "Single; Bristol; Cambridge", "Bob;Single;Bob", "Go Yorkshire; Bob"]
+            rows = [[rounds_, "", 0], [rounds_, rng.choice(["", "Go Bristol"]), 0]]
+            cur = list(rounds_)
+            for k in range(rng.randint(6, 10)):
+                for j in range(k % 2, n - 1, 2):
+                    cur[j], cur[j + 1] = cur[j + 1], cur[j]
+                rows.append(["".join(cur), rng.choice(pool), 0])
+            spec = {"kind": "complib", "payload": {"stage": n, "title": "T", "rows": rows}}
+            peal = rng.choice([110, 120, 150, 178])
+            gap = rng.choice([1.0, 1.5])
+            nrows = len(rows) + 1
+            look_to = Fraction(rng.randint(15, 90), 100) + Fraction(1, 1000)
+            iv = blow_interval(peal, n)
+            rh = {"kind": rng.choice(["regression", "wait"]), "inertia": 0.5, "peal_speed": peal, "gap": gap, "max": 15}
+            horizon = look_to + 3 + iv * (nrows * n + nrows // 2 * Fraction(gap)) + Fraction(1, 3000)
+            a = base(spec, n, rh, [ev(0, "global", [True] * n), ev(look_to, "call", "Look to")], horizon)
+            yield {"a": a, "oracle": {"n": n, "peal": peal, "gap": gap, "look_to": fstr(look_to)}}
+
     def second_touch(self, rng):
         n = rng.choice([5, 6, 8])
         spec = {"kind": "plain_hunt", "stage": n, "custom": None}
